@@ -323,7 +323,8 @@ def load_kern(
         file = np.loadtxt(
             filename, dtype="U", delimiter="\t", comments="!!", encoding="cp437"
         )
-        parsing_idxs = np.arange(file.shape[0])
+        # one part index per spine (column); a single-spine file is read as a 1-d array
+        parsing_idxs = np.arange(file.shape[1] if file.ndim > 1 else 1)
     except ValueError:
         # Fallback to a slower parser that supports spine splitting
         file, parsing_idxs = _handle_kern_with_spine_splitting(filename)
